@@ -132,6 +132,11 @@ def k_pus(ctx, which, raw, ts_len=0, full=False, fault=None, light=False):
     ctx.table("packets_fully_enumerated", which)
 
 
+def _invalid_crc():
+    from spacepackets.cfdp.exceptions import InvalidCrc
+    return InvalidCrc
+
+
 def k_pdu(ctx, kind, cfg, p, full=False, fault=None, decoder=None, light=False):
     X = C.lib()
     raw = C.ref_octets(kind, cfg, p)
@@ -145,6 +150,12 @@ def k_pdu(ctx, kind, cfg, p, full=False, fault=None, decoder=None, light=False):
     for name, d in decs:
         ok, u = attempt(d, raw)
         ctx.check("uncorrupted_accepted", ok and u is not None, "valid_packet_refused", f"{kind}/{name}", base, error=None if ok else repr(u))
+        # the same uncorrupted PDU in a receive buffer that goes on behind it (next PDU, spare octets): a decoder may refuse to
+        # look at such a buffer at all (NAK does), but it must not call the checksum of an intact PDU wrong
+        for sfx in (raw[:7], b"\x00\x00", b"\xa5" * 9):
+            ok2, u2 = attempt(d, raw + sfx)
+            ctx.check("uncorrupted_accepted", ok2 or not isinstance(u2, _invalid_crc()), "checksum_of_an_intact_pdu_reported_wrong_when_octets_follow", f"{kind}/{name}", base,
+                      error=None if ok2 else repr(u2))
     n = len(raw)
     hl = R.header_len(cfg["idw"], cfg["seqw"])
     excluded = set(range(8, 32)) | {6}
